@@ -94,3 +94,7 @@ impl Unit {
 // facade is re-exported here so that `crate::verif::mrt` can reach it.
 #[cfg(feature = "verif-hooks")]
 pub use mrt_file_in::verif as verif_mrt_file_in;
+// verif-hooks (C12): `mrt_file_in` is private to this module; the facade
+// reaches its hook module through this guarded re-export.
+#[cfg(feature = "verif-hooks")]
+pub use mrt_file_in::verif_c12 as verif_mrt_c12;
